@@ -97,9 +97,16 @@ def check_case(ctx, case):
     except pb.RangeError as err:
         hit = HitResult(shot, err.incomplete_trajectory, True)
     rows = hit.trajectory
+    ds_ = [r.distance.raw_value for r in rows]
+    if any(b < a for a, b in zip(ds_, ds_[1:])):
+        # a lofted shot drifting back in a head wind: rows are no longer ordered by distance and 'the rows that bracket
+        # the range' is not defined; the statement is applied to trajectories that keep moving down-range
+        ctx.count("trajectories_moving_backwards_skipped")
+        return
     if case["shot"].get("look_deg"):
         ctx.count("inclined_sight_line")
-    last_ft = rows[-1].distance >> Distance.Foot
+    # "beyond the computed trajectory" = beyond its farthest row (a lofted shot in a head wind drifts back at the end)
+    last_ft = max(r.distance >> Distance.Foot for r in rows)
     for q_frac, heights in case["queries"]:
         q_ft = q_frac * last_ft
         prev = None
@@ -160,7 +167,7 @@ def gen_case(rng):
 
 
 def run(ctx):
-    total = 140 if ctx.tier == "quick" else 6000
+    total = 1000 if ctx.tier == "quick" else 30000
     for _ in range(ctx.share(total)):
         if not ctx.time_left():
             break
